@@ -27,6 +27,21 @@
 (* by the very same operators at the usual resolution; a stopping rule     *)
 (* that is secretly absolute shows up on the 2^-10 / 2^-20 members.        *)
 (*                                                                         *)
+(* TARGET-OFFSET FAMILY.  The stated objective sees y only through         *)
+(* y - mean(y); field yoff says that the library was fed y + yoff (2^30 .. *)
+(* 2^36, 1e9: |mean| / spread up to 1e10) and that the harness subtracted  *)
+(* yoff from the intercept and the predictions again.  The event carries   *)
+(* the small integers, every clause applies unchanged; an implementation   *)
+(* that mistakes a large-mean target for a constant one, or loses the      *)
+(* spread to the mean, is exposed.  Pair events of kind "shift" with a     *)
+(* huge shift are realised the same way (then C = 0).                      *)
+(*                                                                         *)
+(* ENTRY POINTS.  Field entry = "inherent" (Lasso::fit, predict) or "api"  *)
+(* (smartcore::api::SupervisedEstimator::fit, Predictor::predict, fully    *)
+(* qualified).  The contract -- in particular every row of the validation  *)
+(* table -- is the same for both; each invalid setting is recorded through *)
+(* both.                                                                   *)
+(*                                                                         *)
 (* Verdicts come from the operators of Lasso.tla only.                     *)
 (***************************************************************************)
 EXTENDS Lasso, TLC, Json, IOUtils
@@ -113,13 +128,18 @@ HitOf(e, c) == IF e.ev = "Fit" THEN FitHit(e, c)
 
 HitNames == {"Valid_lasso_raw", "Valid_lasso_std", "Valid_enet_raw", "Valid_enet_std", "Invalid",
              "Pair_shift", "Pair_l1one", "OutOfRange", "Skipped",
-             "ScaledDown", "ScaledUp", "Unscaled"}        \* second counter: member of the scale family
+             "ScaledDown", "ScaledUp", "Unscaled",        \* second counter: member of the scale family
+             "TargetOffset", "NoTargetOffset",            \* third: target-offset family
+             "Invalid_api", "Invalid_inherent", "Valid_api", "Valid_inherent"}   \* fourth: entry point
+OffsetHit(e) == IF e.yoff # 0 THEN "TargetOffset" ELSE "NoTargetOffset"
+EntryHit(e, c) == (IF e.ev = "Fit" /\ FitHit(e, c) = "Invalid" THEN "Invalid_" ELSE "Valid_") \o e.entry
 ScaleHit(e) == IF e.yexp < 0 THEN "ScaledDown" ELSE IF e.yexp > 0 THEN "ScaledUp" ELSE "Unscaled"
 
 Judge(e, c) ==
     /\ IF c \in {"", "OutOfRange", "Skipped"} THEN nbad' = nbad
        ELSE PrintT(<<"BAD", l, e.run, e.ev, c>>) /\ nbad' = nbad + 1
-    /\ hits' = [hits EXCEPT ![HitOf(e, c)] = @ + 1, ![ScaleHit(e)] = @ + 1]
+    /\ hits' = [hits EXCEPT ![HitOf(e, c)] = @ + 1, ![ScaleHit(e)] = @ + 1,
+                            ![OffsetHit(e)] = @ + 1, ![EntryHit(e, c)] = @ + 1]
 
 Step == /\ l <= Len(Rec)
         /\ Judge(Rec[l], Clause(Rec[l]))
